@@ -4,7 +4,7 @@
    preferred; [rfc_cmp] is the lexicographic comparison of the key of Spec/PathSelSpec.v. *)
 From Coq Require Import List NArith ZArith.
 Import ListNotations.
-From BioVerif Require Import Model.PathSel Spec.PathSelSpec Proofs.PathSelProofs.
+From BioVerif Require Import Model.PathSel Spec.PathSelSpec Proofs.PathSelProofs Gen.SelectGen Proofs.SelectGenEquiv.
 Open Scope N_scope.
 
 (* Select IS the RFC comparison: every decision step, its direction and its position. *)
@@ -68,6 +68,23 @@ Print Assumptions C03_lowest_peer_address.
 Theorem C03_other_ordering : forall a b, bgp_select b a = (- bgp_select a b)%Z.
 Proof. exact bgp_select_antisym. Qed.
 Print Assumptions C03_other_ordering.
+
+(* ---- the functions regenerated from the Go source on this run (Gen/SelectGen.v, tools/gosub2coq) ---- *)
+Theorem C03_generated_select_agrees :
+  (forall b c, g_BGPPath_Select b c = bgp_select b c) /\
+  (forall b c, g_BGPPath_ECMP b c = bgp_ecmp b c) /\
+  (forall b, g_BGPPath_clusterListLen b = cl_len b) /\
+  (forall s t, g_StaticPath_Select s t = static_select s t) /\
+  (forall s t, g_StaticPath_ECMP s t = static_ecmp s t) /\
+  (forall a b, g_IP_Compare a b = ip_compare a b).
+Proof. exact generated_select_agrees. Qed.
+Print Assumptions C03_generated_select_agrees.
+
+(* what route/bgp_path.go says NOW is the RFC comparison *)
+Theorem C03_select_is_rfc_gen : forall b c : bgp_path,
+  g_BGPPath_Select b c = rfc_cmp_bgp (bgp_key_of b) (bgp_key_of c).
+Proof. exact bgp_select_gen_is_rfc. Qed.
+Print Assumptions C03_select_is_rfc_gen.
 
 (* Non-vacuity / readability: two iBGP paths reflected by route reflectors. *)
 Definition ex_path (bid oid : N) (cl : option (list N)) (peer : N) : bgp_path :=
